@@ -84,7 +84,9 @@ func installAxioms(e *rangeEngine) {
 	for _, f := range []string{"calendar.(*Yun).GetDaYunBy", "calendar.(*DaYun).GetLiuNianBy", "calendar.(*DaYun).GetXiaoYunBy"} {
 		e.paramOverride[f] = map[int]aval{1: rangeVal(0, 10).withAx(api)}
 	}
-	e.siteOverride["calendar.ListSolarFromBaZiBySectAndBaseYear|LunarUtil.Find"] = rangeVal(0, 11).withAx(axBit("AX-SEARCHHIT"))
+	for _, f := range []string{"calendar.ListSolarFromBaZi", "calendar.ListSolarFromBaZiBySect", "calendar.ListSolarFromBaZiBySectAndBaseYear"} {
+		e.siteOverride[f+"|LunarUtil.Find"] = rangeVal(0, 11).withAx(axBit("AX-SEARCHHIT"))
+	}
 	for _, f := range []string{"calendar.(*EightChar).GetMingGong", "calendar.(*EightChar).GetShenGong", "LunarUtil.GetXunIndex"} {
 		e.searchHit[f] = true
 	}
